@@ -100,6 +100,22 @@ Proof.
   cbn. repeat (constructor || split); reflexivity.
 Qed.
 
+(* No panic for ANY destination type of the modelled universe (typed maps keyed by interface{}, by arrays or structs holding interfaces, ...),
+   any pre-filled content and ANY bytes: Decode yields a value or an error.  This is the typed-destination complement of
+   C04_cql_decode_no_panic (untyped destination); it holds because mapInjector.setElem refuses keys that are not hashable (fix 280217e;
+   before it, map<list<int>,int> into *map[interface{}]int reached reflect.Value.SetMapIndex and panicked). *)
+Theorem C11_typed_decode_no_panic : forall v t gt d src, g_decode v t gt d src <> PANIC.
+Proof. exact g_decode_no_panic. Qed.
+Print Assumptions C11_typed_decode_no_panic.
+
+Example C11_unhashable_key_refused :
+  g_decode 4 (TMap (TList (TScalar SInt)) (TScalar SInt)) (GMap GIface (GLeaf SInt LVal)) GVNilMap
+           (Some (hx "000000010000000c0000000100000004000000010000000400000007")) = ERR /\
+  g_decode 4 (TMap (TList (TScalar SInt)) (TScalar SInt)) (GMap (GArray 1 (GLeaf SInt LVal)) (GLeaf SInt LVal)) GVNilMap
+           (Some (hx "000000010000000c0000000100000004000000010000000400000007"))
+    = OK (false, GVMap [(GVArray [GVLeaf (VInt 1)], GVLeaf (VInt 7))]).
+Proof. split; vm_compute; reflexivity. Qed.
+
 (* the known finding, in the model: a NaN key is not found again by the map extractor, its value is encoded as NULL *)
 Example C11_nan_key_loses_value :
   gabs (TMap (TScalar SDouble) (TScalar SInt)) (Some (GMap (GLeaf SDouble LVal) (GLeaf SInt LVal), GVMap [(GVLeaf (VFloat 9221120237041090560), GVLeaf (VInt 5))]))
